@@ -192,6 +192,8 @@ def _domops(pid):
             core.miri_leg(m, pid, 'dom', [seed, seed + 1])
             if pid == 'C12':
                 core.miri_leg(m, pid, 'sstr', list(range(seed, seed + 16)))
+                core.tsan_leg(m, pid, [('uidnow', ['uidnow', '--threads', 16, '--per', 200000]),
+                                       ('mixed', ['tsan', '--what', 'mixed', '--threads', 16, '--rounds', 120, '--seed', seed])], os.path.join(rundir, 'tsan'))
         if pid == 'C12':
             import sys
             sys.path.insert(0, os.path.join(core.VERIF, 'lib'))
@@ -263,6 +265,9 @@ def _c18(m, tier, seed, rundir, extra):
     if tier == 'thorough':
         # Miri: data races and the Arc/Weak protocol under weak-memory emulation; each seed is another schedule
         core.miri_leg(m, 'C18', 'sstr', list(range(seed, seed + 48)))
+        # ThreadSanitizer: the same stress run natively, with std instrumented (build-std), plus the mixed workload
+        core.tsan_leg(m, 'C18', [('stress', ['sstr', '--mode', 'stress', '--ops', 4000000, '--threads', 16, '--seed', seed]),
+                                 ('mixed', ['tsan', '--what', 'mixed', '--threads', 16, '--rounds', 120, '--seed', seed + 7])], os.path.join(rundir, 'tsan'))
 
 
 PLANS['C18'] = {
